@@ -346,11 +346,14 @@ def wgsl_program(r, size):
         hn = "helper%d" % h
         Q = Prog(r, 4)
         Q.f = ["a", "b", "0.5"]
+        Q.mut_f = ["hacc"]
         Q.u = ["1u"]
         Q.i = ["1"]
         Q.v = ["vec4<f32>(a, b, a, b)"]
-        body = Q.block(1 + r.below(4), 3, "  ", lambda q: "let %s = %s;" % (q.name("t"), q.fexpr()))
-        src.append("fn %s(a: f32, b: f32) -> f32 {\n%s\n  return %s;\n}" % (hn, "\n".join(body), Q.fexpr()))
+        # depth 2 lets `if` (and with depth 1 also loops) appear: helpers with control flow are not inlined
+        # by dxil.prepareModule and become separate LLVM functions with parameters
+        body = Q.block(1 + r.below(4), r.choice([1, 2, 3]), "  ", lambda q: "let %s = %s;" % (q.name("t"), q.fexpr()))
+        src.append("fn %s(a: f32, b: f32) -> f32 {\n  var hacc = a;\n%s\n  return hacc + %s;\n}" % (hn, "\n".join(body), Q.fexpr()))
         P.helpers.append(hn)
     if stage == "compute":
         src.insert(0, "@group(0) @binding(0) var<storage, read_write> outb: array<f32>;\n"
